@@ -26,6 +26,20 @@ Behaviours (see lean/JRV/Model/Transport.lean; <code> is any HTTP status, <k> a 
                        inside a character) u16 (UTF-16 with BOM) - and FRAMING: l Content-Length, keep-alive | n no length
                        header, the peer closes | c chunked transfer encoding (HTTP chunks of a few hundred bytes), keep-alive |
                        k Content-Length and `Connection: close`, the peer closes
+    hb_<kind>_<framing>
+                       a HEALTHY 200 reply whose result is `[<token>, <text>]` (ok_result): the JSON text holds what servers
+                       other than the bundled one really send (OK_BODY_KINDS): ascii | raw (2-, 3- and 4-byte characters as raw
+                       UTF-8, `ensure_ascii=False`) | esc (the same text in \\u escapes, surrogate pairs included) | mix (raw and
+                       escaped in one document) | ws (indented, line feeds, raw) | huge (tens of KiB of raw multi-byte text:
+                       many reads, characters straddling every read boundary) | gz (the raw document gzip-compressed and
+                       announced by `Content-Encoding: gzip` - the client asks for it).  Content-Length counts BYTES.
+                       FRAMING as for sb: l | n | c | k.
+    nb_<kind>_<framing>
+                       a 200 reply whose body is NOT JSON text (BAD_BODY_KINDS): html | latin1 (the healthy document encoded
+                       in ISO-8859-1: `caf\\xe9`) | cut (the healthy document with a multi-byte character cut in half) | lone
+                       (a lone continuation byte inside a string) | over (an over-long encoding `\\xc0\\xaf`) | bin (arbitrary
+                       bytes) | gzn (gzip bytes WITHOUT `Content-Encoding`) | extra (the healthy document followed by bytes that
+                       are not UTF-8).  The bad bytes sit INSIDE THE RESULT: any value a call returns is made up.  FRAMING: l n c k.
     q<infos>_<final>_<delta>_<cuts>
                        a reply delivered in pieces.  <infos>: informational responses sent first, one letter each - c/C `100
                        Continue`, p/P `102 Processing`, e/E `103 Early Hints` (no body, no length header; upper case: the
@@ -66,6 +80,13 @@ BEH_RE = re.compile(r"^(ok|okc|down|cbr|rst|trunc|empty|nonjson|"
 SB_RE = re.compile(r"^sb(\d+)_([a-z0-9]+)_([lnck])$")
 ERROR_BODY_KINDS = ["text", "own", "foreign", "err", "http", "empty", "huge", "html", "latin1", "gz", "gzn", "bin", "cut", "u16"]
 ERROR_FRAMINGS = ["l", "n", "c", "k"]
+# 200 replies: healthy documents of every spelling / size / content coding, and bodies that are not JSON text
+HB_RE = re.compile(r"^hb_([a-z0-9]+)_([lnck])$")
+NB_RE = re.compile(r"^nb_([a-z0-9]+)_([lnck])$")
+OK_BODY_KINDS = ["ascii", "raw", "esc", "mix", "ws", "huge", "gz"]
+BAD_BODY_KINDS = ["html", "latin1", "cut", "lone", "over", "bin", "gzn", "extra"]
+_TEXT = u"caf\xe9 na\xefve \u65e5\u672c\u8a9e \u2713 \u20ac \U0001F600 \u00df"   # 2-, 3- and 4-byte characters
+_HUGE_TEXT = (u"\xe9\u65e5\U0001F600a" * 4000)[:15001]   # 1-, 2-, 3-, 4-byte characters: every read boundary falls inside one
 HUGE = 40000            # bytes: many reads, yet within the socket buffers (a client that does not read must not block the peer)
 _HTML = u"<html><head><title>503 Service indisponible</title></head><body><h1>Service indisponible</h1>" \
         u"<p>R\xe9essayez ult\xe9rieurement \u2014 le serveur est surcharg\xe9. \u20ac \U0001F600</p></body></html>"
@@ -77,6 +98,91 @@ def parse_sb(b):
     if not m or m.group(2) not in ERROR_BODY_KINDS:
         return None
     return int(m.group(1)), m.group(2), m.group(3)
+
+
+def parse_hb(b):
+    """`hb_<kind>_<framing>` -> (kind, framing) or None."""
+    m = HB_RE.match(b)
+    if not m or m.group(1) not in OK_BODY_KINDS:
+        return None
+    return m.group(1), m.group(2)
+
+
+def parse_nb(b):
+    """`nb_<kind>_<framing>` -> (kind, framing) or None."""
+    m = NB_RE.match(b)
+    if not m or m.group(1) not in BAD_BODY_KINDS:
+        return None
+    return m.group(1), m.group(2)
+
+
+def ok_text(kind):
+    return u"plain text" if kind == "ascii" else (_HUGE_TEXT if kind == "huge" else _TEXT)
+
+
+def ok_result(kind, tok):
+    """The result a healthy `hb` reply to the request carrying `tok` holds."""
+    return [tok, ok_text(kind)]
+
+
+def hb_body(kind, rid, tok):
+    """-> (bytes on the wire, extra header lines) of a healthy reply of the given kind."""
+    doc = {"jsonrpc": "2.0", "id": rid, "result": ok_result(kind, tok)}
+    if kind in ("ascii", "esc"):
+        return json.dumps(doc, ensure_ascii=True).encode("ascii"), b""
+    if kind == "mix":
+        raw = json.dumps(doc, ensure_ascii=False)
+        return raw.replace(u"\u2713", u"\\u2713").replace(u"\U0001F600", u"\\ud83d\\ude00").encode("utf-8"), b""
+    if kind == "ws":
+        return (u"\r\n " + json.dumps(doc, ensure_ascii=False, indent=2) + u"\n\t").encode("utf-8"), b""
+    if kind == "gz":
+        return gzip.compress(json.dumps(doc, ensure_ascii=False).encode("utf-8"), mtime=0), b"Content-Encoding: gzip\r\n"
+    return json.dumps(doc, ensure_ascii=False).encode("utf-8"), b""   # raw, huge
+
+
+def nb_body(kind, rid, tok):
+    """The bytes of a 200 body that is not JSON text.  JSON-shaped kinds carry the damage inside the result."""
+    def shaped(payload):
+        good = json.dumps({"jsonrpc": "2.0", "id": rid, "result": [tok, u"caf@ na"]}).encode("ascii")
+        return good.replace(b"@", payload)
+    if kind == "html":
+        return _HTML.encode("utf-8")
+    if kind == "latin1":
+        return shaped(u"\xe9".encode("iso-8859-1"))
+    if kind == "cut":
+        return shaped(u"\xe9".encode("utf-8")[:1])
+    if kind == "lone":
+        return shaped(b"\x80")
+    if kind == "over":
+        return shaped(b"\xc0\xaf")
+    if kind == "extra":
+        return shaped(b"e") + b"\n\xff\xfe"
+    if kind == "gzn":
+        return gzip.compress(shaped(b"e"), mtime=0)
+    if kind == "bin":
+        r = random.Random(19)
+        return b"\x00\xff\xfe\x80\xbf" + bytes(r.randrange(256) for _ in range(300)) + b"\xc3"
+    raise core.InfraError("scripted peer: unknown 200 body kind %r" % (kind,))
+
+
+def frame(status_line, headers, body, framing):
+    """The bytes of a reply in the given framing (l n c k) and whether the connection is kept alive."""
+    head = status_line + headers
+    if framing in ("l", "k"):
+        head += ("Content-Length: %d\r\n" % len(body)).encode()
+    if framing == "k":
+        head += b"Connection: close\r\n"
+    if framing == "c":
+        head += b"Transfer-Encoding: chunked\r\n"
+        parts, i, k = [], 0, 0
+        sizes = [313, 1, 700, 4096]
+        while i < len(body):
+            part = body[i:i + sizes[k % len(sizes)]]
+            parts.append(("%x\r\n" % len(part)).encode() + part + b"\r\n")
+            i += len(part)
+            k += 1
+        body = b"".join(parts) + b"0\r\n\r\n"
+    return head + b"\r\n" + body, framing in ("l", "c")
 
 
 def error_body(kind):
@@ -125,7 +231,8 @@ def parse_q(b):
 
 
 def valid_beh(b):
-    return bool(BEH_RE.match(b)) or parse_q(b) is not None or parse_sb(b) is not None
+    return bool(BEH_RE.match(b)) or parse_q(b) is not None or parse_sb(b) is not None or parse_hb(b) is not None \
+        or parse_nb(b) is not None
 
 
 class Peer(object):
@@ -470,7 +577,11 @@ class Peer(object):
         if fr is None or fr.f_code.co_name != "readinto" or os.path.basename(fr.f_code.co_filename) != "socket.py":
             return False
         try:
-            sock = self.client_sock() if self.client_sock else None
+            # the socket the client is reading from: the one of the SocketIO whose readinto it sits in (the cached
+            # HTTPConnection no longer knows it once it has handed it to a `will_close` response)
+            sock = getattr(fr.f_locals.get("self"), "_sock", None)
+            if sock is None:
+                sock = self.client_sock() if self.client_sock else None
             if sock is None or sock.fileno() < 0:
                 return False
             r, _, _ = select.select([sock], [], [], 0)
@@ -596,6 +707,18 @@ class Peer(object):
             sb = parse_sb(beh)
             if sb is not None:
                 return self._apply_sb(c, sb, tok, rid)
+            hb = parse_hb(beh)
+            if hb is not None:
+                body, extra = hb_body(hb[0], rid, tok)
+                data, keep = frame(b"HTTP/1.1 200 OK\r\n", b"Content-Type: application/json\r\n" + extra, body, hb[1])
+                c.sendall(data)
+                return keep
+            nb = parse_nb(beh)
+            if nb is not None:
+                ctype = b"Content-Type: text/html\r\n" if nb[0] == "html" else b"Content-Type: application/json\r\n"
+                data, keep = frame(b"HTTP/1.1 200 OK\r\n", ctype, nb_body(nb[0], rid, tok), nb[1])
+                c.sendall(data)
+                return keep
             if beh == "ok":
                 self._send(c, 200, "OK", ok_body)
                 return True
